@@ -960,10 +960,47 @@ func (c *c10ctx) ruleR3() {
 // starterInvokes lists the interface calls made by the start function, in order.
 func (c *c10ctx) starterInvokes() []ssa.Instruction {
 	var out []ssa.Instruction
-	Instrs(c.starter, func(in ssa.Instruction) {
-		if cc := CallOf(in); cc != nil && cc.IsInvoke() && cc.Value.Type() == c.dsIface {
+	for _, st := range c.starterSteps() {
+		out = append(out, st.inv)
+	}
+	return out
+}
+
+// starterStep: an interface call of the start sequence and the instruction of the start function
+// itself that leads to it (the call itself, the call of a helper, or the call of a step value).
+type starterStep struct {
+	inv ssa.Instruction
+	top ssa.Instruction
+}
+
+func (c *c10ctx) starterSteps() []starterStep {
+	var out []starterStep
+	seen := map[ssa.Instruction]bool{}
+	add := func(in, top ssa.Instruction) {
+		if cc := CallOf(in); cc != nil && cc.IsInvoke() && cc.Value.Type() == c.dsIface && !seen[in] {
 			if _, isGo := in.(*ssa.Go); !isGo {
-				out = append(out, in)
+				seen[in] = true
+				out = append(out, starterStep{in, top})
+			}
+		}
+	}
+	// in the start function, in the helpers it calls, and behind method values of the source
+	// that it calls (a table of steps): the interface calls inside the bound-method wrappers
+	InstrsDeep(c.starter, 2, func(d DeepInstr) {
+		add(d.In, d.Top)
+		cc := CallOf(d.In)
+		if cc == nil || cc.IsInvoke() || cc.StaticCallee() != nil {
+			return
+		}
+		if _, isB := cc.Value.(*ssa.Builtin); isB {
+			return
+		}
+		for _, f := range c.p.callees(d.In) {
+			if f != nil && f.Synthetic != "" && strings.HasSuffix(f.Name(), "$bound") {
+				Instrs(f, func(x ssa.Instruction) { add(x, d.Top) })
+			} else if isModuleFn(f) && f.Parent() != nil {
+				// a closure in the table: func() error { return ds.PrepareRun(a, b) }
+				Instrs(f, func(x ssa.Instruction) { add(x, d.Top) })
 			}
 		}
 	})
